@@ -763,7 +763,7 @@ def h1_parts(tier):
         for ns in ('none', 'slash', 'sym'):
             for hid in (False, True):
                 if ty in BIN:
-                    for k in ((1, 3, 12) if tier == 'quick' else (1, 2, 3, 10, 11, 12)):
+                    for k in ((0, 1, 3, 12) if tier == 'quick' else (0, 1, 2, 3, 10, 11, 12)):
                         out.append(dict(L=L, type=ty, ns=ns, id=hid, data=True, k=k))
                 else:
                     for d in (False, True):
@@ -810,9 +810,9 @@ META = dict(
                 'specification-derived encoder, and differential decoding against a specification-derived decoder on '
                 'completely arbitrary frames.',
     bounds={'quick': 'header round trip: every type x namespace {none, "/", symbolic} x id {none, symbolic n>=0} x payload '
-                     'text {none, symbolic}, total frame <= 10 code points, attachment counts {1,3,12}; differential '
+                     'text {none, symbolic}, total frame <= 10 code points, attachment counts {0,1,3,12}; differential '
                      'decode: arbitrary frame <= 10 code points',
-            'thorough': 'frame <= 16 (round trip, counts {1,2,3,10,11,12}) / <= 14 (differential)'},
+            'thorough': 'frame <= 16 (round trip, counts {0,1,2,3,10,11,12}) / <= 14 (differential)'},
     outside=['top-level numeric payloads on CONNECT/DISCONNECT/CONNECT_ERROR (Packet(4, data=12) encodes to "412", which '
              'every v5 decoder reads as id 12: the format itself is ambiguous there)', 'frames longer than L',
              'JSON loads/dumps themselves (stdlib; the payload text is an arbitrary symbolic string constrained only in '
